@@ -218,13 +218,14 @@ def run(tier):
     patterns = [("async", p) for p in itertools.product(lats, repeat=4)]
     v2, s2, m2 = e5.pmap(check_watchdog, patterns)
     report.add_all(v2)
-    part_threaded = {}
-    try:
-        from . import c20t
+    from . import c20t
 
-        part_threaded = c20t.run_part(report, tier)
-    except ImportError:
-        part_threaded = {"threaded_kinds": "not built in this revision"}
+    part_threaded = c20t.run_part(report, tier)
+    tl = [0.0, c20t.R / 2, 0.95 * c20t.R, None]
+    tpatterns = list(itertools.product(tl, repeat=3 if tier == "quick" else 4))
+    v3, s3, m3 = e5.pmap(c20t.check_watchdog_threaded, tpatterns)
+    report.add_all(v3)
+    part_threaded["watchdog"] = dict(s3)
     cov = report.coverage
     cov["evaluations"] = cov["transitions"] + s2["latency_patterns"] + part_threaded.get("executions", 0)
     cov["distinct_nontrivial"] = cov["states"] + s2["drops"]
@@ -254,6 +255,17 @@ def replay(data):
         from .. import e1check
 
         return e1check.replay_history(AsyncSpec("thorough"), data)
+    if rep.get("kind") == "watchdog-threaded":
+        from . import c20t
+
+        viols, _, _ = c20t.check_watchdog_threaded([tuple(rep["pattern"])])
+        sigs = sorted({v.signature for v in viols})
+        print(f"pattern {rep['pattern']}: violations {sigs}")
+        if data["signature"] in sigs:
+            print(f"VIOLATION property={PROP} replay=<replayed>")
+            return 1
+        print("did not reproduce on the current tree")
+        return 0
     if rep.get("kind") == "watchdog":
         viols, _, _ = check_watchdog([(rep["flavour"], tuple(rep["pattern"]))])
         sigs = sorted({v.signature for v in viols})
